@@ -165,7 +165,12 @@ where
     #[cfg(feature = "std")]
     fn chunks_vectored<'a>(&'a self, dst: &mut [IoSlice<'a>]) -> usize {
         let mut n = self.a.chunks_vectored(dst);
-        n += self.b.chunks_vectored(&mut dst[n..]);
+        // `b` may only follow once all of `a` has been reported, otherwise the
+        // slices are not a contiguous prefix of the chained sequence.
+        let a_reported: usize = dst[..n].iter().map(|s| s.len()).sum();
+        if a_reported == self.a.remaining() {
+            n += self.b.chunks_vectored(&mut dst[n..]);
+        }
         n
     }
 
